@@ -260,7 +260,7 @@ func c15TopologyUnit(unit string, env *fw.Env) *fw.Result {
 func init() {
 	fw.Register(&fw.Check{
 		ID: "C15", Level: "model_checking",
-		Rule: "the real replication.Primary on a real engine (registered as log observer) with replica sessions over an in-memory stream of bounded window; (A) stateless exploration, all interleavings up to the deviation bound (1 quick, 2 thorough): a replica that never reads (window 1) while clients put / get / commit; a healthy acknowledging replica whose poll loop (ticker as environment event) runs while clients write; a replica connection cut abruptly while a client puts (thorough tier only); an acknowledgement, or a retransmission request, for the stuck session followed by a client put, flush (log rotation) and get. Oracle: in every schedule every client call returns and returns nil - a client thread that waits, directly or through a lock chain, on a stream send or on a lock held by a replication thread shows up as the scheduler's deadlock witness. " +
+		Rule: "the real replication.Primary on a real engine (registered as log observer) with replica sessions over an in-memory stream of bounded window; (A) stateless exploration, all interleavings up to the deviation bound (1 quick, 2 thorough): a replica that never reads (window 1) while clients put / get / commit; a healthy acknowledging replica whose poll loop (ticker as environment event) runs while clients write; a replica connection cut abruptly while a client puts (thorough tier only, one deviation); an acknowledgement, or a retransmission request, for the stuck session followed by a client put, flush (log rotation) and get. Oracle: in every schedule every client call returns and returns nil - a client thread that waits, directly or through a lock chain, on a stream send or on a lock held by a replication thread shows up as the scheduler's deadlock witness. " +
 			"(B) discrete-event run: one replica stops reading after 1 message, one stays healthy, 45 writes over 45 s: the writer finishes, the stalled session has left GetReplicaInfo by t=45 s (heartbeat timeout 30 s), the healthy one is still listed and has received every write. Non-trivial = executions with a cross-thread conflict",
 		Assumptions: []string{"'normal time' is decided as absence of a blocking dependency on the replica (virtual time), not as a latency figure", "gRPC flow control is modelled by a bounded in-memory window"},
 		Units: func(tier string) []string {
@@ -276,6 +276,10 @@ func init() {
 				n := 8
 				if b == 2 {
 					n = 16
+				}
+				if sc.Name == "disconnect-vs-put" {
+					us = append(us, shardUnits(sc.Name, 1, 16)...) // complete at one deviation; two do not fit the budget
+					continue
 				}
 				us = append(us, shardUnits(sc.Name, b, n)...)
 			}
